@@ -35,7 +35,7 @@ ASSUMPTIONS = ["pi is an abstract positive constant in the theorems; 2*pi = 6.28
                "(the library recomputes and resets it to the default one): only that psd, sides and frequencies(), read in that order, describe the "
                "same function of frequency and that it is the one of the statement.  frequencies() called between such an assignment and the next "
                "read of psd is executed but not compared (it still reports the old layout on the unchanged tree: candidate finding, "
-               "/tmp/finding_C08.py, marked PENDING-FINDING in the module); sampling values assigned in a history stay inside (1e-2, 1e5)",
+               "/tmp/finding_C08.py, marked RULING (DESIGN 0.9: frequencies() follows the current `sides` attribute and does not recompute; a psd read that recomputes resets `sides`; the properties observe psd first) in the module); sampling values assigned in a history stay inside (1e-2, 1e5)",
                "arma2psd bin by bin (a2pbin): AR parts with |A(f)| < 2e-10 at a grid frequency are redrawn (a pole of the spectrum ON the grid has "
                "no value to compare); zeros of B exactly on the grid are kept (the value there is 0 or ~1e-32 and must come out as >= 0 "
                "and at most the rounding enclosure)"]
@@ -543,7 +543,7 @@ def oracle_entry(p):
 # history `ops` (a list of small lists, replayable from the parameters alone):
 #     ["read"] o.psd   ["call"] o()   ["run"] o.run()   ["sides", s] o.sides = s   ["scale", b] o.scale_by_freq = b
 #     ["fs", v] o.sampling = v   ["nfft", n] o.NFFT = n   ["conv", s] o.get_converted_psd(s) (its value is checked)
-#     ["freq"] o.frequencies() (value not compared, see PENDING-FINDING below)   ["bad", what] an assignment / call the library rejects
+#     ["freq"] o.frequencies() (value not compared, see RULING (DESIGN 0.9: frequencies() follows the current `sides` attribute and does not recompute; a psd read that recomputes resets `sides`; the properties observe psd first) below)   ["bad", what] an assignment / call the library rejects
 #     ["obs"] observe
 # and at every "obs" takes a snapshot of what the object reports -- psd (read first), then sides, frequencies(), df, scale_by_freq,
 # sampling, NFFT, get_converted_psd(L) / frequencies(L) for every layout L -- and compares it with
@@ -717,7 +717,7 @@ def oracle_hist(p):
             st["nfft_arg"] = op[1]
             st["nfft"] = C.resolved_nfft(x, op[1])
         elif w == "freq":
-            # PENDING-FINDING (/tmp/finding_C08.py): on the unchanged tree frequencies() called BETWEEN an assignment of scale_by_freq /
+            # RULING (DESIGN 0.9: frequencies() follows the current `sides` attribute and does not recompute; a psd read that recomputes resets `sides`; the properties observe psd first) (/tmp/finding_C08.py): on the unchanged tree frequencies() called BETWEEN an assignment of scale_by_freq /
             # sampling to an object in a non-default layout and the next read of psd still returns the axis of the old layout, while the
             # psd read right after it comes back in the default layout (`plot(p.frequencies(), p.psd)` pairs them wrongly).  Until that
             # is ruled on, the call is made (it must not disturb anything) but its value is compared only inside "obs", after psd was read.
